@@ -545,7 +545,17 @@ def rule_rep_structure(ctx):
     # hom applied to the image of g
     hom_calls = [c for c in ast.walk(g.node) if isinstance(c, ast.Call)
                  and dotted(c.func) == "hom"]
-    if hom_calls and all(c.args and dotted(c.args[0]) == "image"
+    gdefs = single_defs(g.node)
+
+    def own_image(e, depth=0):
+        """e is self.generators[<loop variable>] (possibly via a local)"""
+        if isinstance(e, ast.Name) and e.id in gdefs and depth < 3:
+            return own_image(gdefs[e.id], depth + 1)
+        loopvars = {dotted(lp.target) for lp in ast.walk(g.node)
+                    if isinstance(lp, ast.For)}
+        return isinstance(e, ast.Subscript) and dotted(e.value) in (
+            "self.generators", "self") and dotted(e.slice) in loopvars
+    if hom_calls and all(c.args and own_image(c.args[0])
                          for c in hom_calls):
         r.ok("INV", "_compose:hom(image)", loc(g, hom_calls[0]),
              dotted(hom_calls[0]), "hom is applied to the generator's image")
